@@ -336,3 +336,48 @@ package ast
 //@ func (*Node).StartPos
 //@ props C01 C17
 //@ pure
+
+// The grammar builds statements only at statement positions: every child of an expression
+// node, every condition, loop header clause and iterated expression is an expression node.
+//@ spec isStmtKind(n *Node) bool = n != nil && (n.NodeType == TypeIfelseStmt || n.NodeType == TypeForStmt || n.NodeType == TypeForInStmt || n.NodeType == TypeBreakStmt || n.NodeType == TypeContinueStmt)
+
+//@ struct UnaryExpr
+//@ props C13 C05
+//@ invariant !isStmtKind(self.RHS)
+//@ struct ParenExpr
+//@ props C13 C05
+//@ invariant !isStmtKind(self.Param)
+//@ struct InExpr
+//@ props C13 C05
+//@ invariant !isStmtKind(self.LHS) && !isStmtKind(self.RHS)
+//@ struct ConditionalExpr
+//@ props C13 C05
+//@ invariant !isStmtKind(self.LHS) && !isStmtKind(self.RHS)
+//@ struct ArithmeticExpr
+//@ props C13 C05
+//@ invariant !isStmtKind(self.LHS) && !isStmtKind(self.RHS)
+//@ struct SliceExpr
+//@ props C13 C05
+//@ invariant !isStmtKind(self.Obj) && !isStmtKind(self.Start) && !isStmtKind(self.End) && !isStmtKind(self.Step)
+//@ struct ListLiteral
+//@ props C13 C05
+//@ invariant forall i :: 0 <= i && i < len(self.List) ==> !isStmtKind(self.List[i])
+//@ struct MapLiteral
+//@ props C13 C05
+//@ invariant forall i :: 0 <= i && i < len(self.KeyValeList) ==> !isStmtKind(self.KeyValeList[i][0]) && !isStmtKind(self.KeyValeList[i][1])
+//@ struct IndexExpr
+//@ props C13 C05
+//@ invariant forall i :: 0 <= i && i < len(self.Index) ==> !isStmtKind(self.Index[i])
+//@ struct CallExpr
+//@ props C13 C05
+//@ invariant forall i :: 0 <= i && i < len(self.Param) ==> !isStmtKind(self.Param[i])
+//@ struct AssignmentExpr
+//@ invariant forall i :: 0 <= i && i < len(self.RHS) ==> !isStmtKind(self.RHS[i])
+//@ struct IfStmtElem
+//@ props C13 C05
+//@ invariant !isStmtKind(self.Condition)
+//@ struct ForStmt
+//@ props C13 C05
+//@ invariant !isStmtKind(self.Init) && !isStmtKind(self.Cond) && !isStmtKind(self.Loop)
+//@ struct ForInStmt
+//@ invariant !isStmtKind(self.Iter)
